@@ -179,7 +179,7 @@ def _materialise(traj, rel):
         raise Skip("trajectory leaves the admissible set")
     out = []
     for t in ts:      # requested times closer than a few ulp are one and the same request
-        if not out or t - out[-1] > 64 * EPS * max(abs(t), abs(out[-1])):
+        if not out or t - out[-1] > 64 * EPS * max(abs(t), abs(out[-1]), abs(float(traj.time(0)))):      # (ulp of the times the run passes through, incl. its start)
             out.append(t)
     return out
 
@@ -278,7 +278,7 @@ def _judge(P, case, traj, f0, tsave, stop_arg, eff, call, restart_it=None, tsave
         # every returned snapshot is stamped with a requested time, in order
         idx = []
         for s in snaps:
-            j = [i for i, t in enumerate(tsave) if abs(s.time - t) <= 8 * EPS * max(abs(t), abs(t_end))]
+            j = [i for i, t in enumerate(tsave) if abs(s.time - t) <= 8 * EPS * max(abs(t), abs(t_end), abs(t_start))]
             require(len(j) > 0, "snapshot-time", "%s: a returned snapshot is stamped %r, which is not a requested save time" % (what, s.time))
             idx.append(j[0])
         require(all(b > a for a, b in zip(idx, idx[1:])), "snapshot-order", "%s: snapshots are not in increasing order of the requested times (indices %r)" % (what, idx))
